@@ -802,9 +802,11 @@ def shrink_dc(vu, case, sig):
         c = dict(c, steps=st)
     co = vlib.shrink_list(c["coords"], lambda ps: len(ps) >= 3 and fails(dict(c, coords=list(ps))), min_len=3)
     c = dict(c, coords=co)
+    mag = max([abs(v) for p_ in c["coords"] for v in p_] + [1e-300])
+    shift = max(0, -int(math.floor(math.log10(mag))))        # decimals are counted from the leading digit of the coordinates
     for dec in (0, 1, 2, 3, 5):
-        c2 = dict(c, coords=[[round(x, dec), round(y, dec)] for x, y in c["coords"]],
-                  steps=[round(v, dec + 1) for v in c["steps"]] if isinstance(c["steps"], list) else c["steps"])
+        c2 = dict(c, coords=[[round(x, dec + shift), round(y, dec + shift)] for x, y in c["coords"]],
+                  steps=[round(v, dec + shift + 1) for v in c["steps"]] if isinstance(c["steps"], list) else c["steps"])
         if fails(c2):
             c = c2
             break
